@@ -81,9 +81,42 @@ Proof.
   - eapply isolation_fresh; eauto. apply forallb_map_fresh.
 Qed.
 
-(* every catalogued call is isolated: full strength *)
+(* ---- the programs of the catalogue never hand out or write an input buffer ---------------------------- *)
+Lemma exec_app p q : exec (p ++ q) = exec p ++ exec q.
+Proof. unfold exec. apply flat_map_app. Qed.
+
+Lemma exec_map_nil (f : nat -> stmt) vars : (forall i, stmt_effs (f i) = []) -> exec (map f vars) = [].
+Proof. intros H. induction vars as [|i t IH]; simpl; auto. unfold exec in *. simpl. rewrite H, IH. reflexivity. Qed.
+
+Lemma base_guard s : base (guard_copy s) = None.
+Proof. unfold guard_copy. destruct (base s) eqn:E; simpl; auto. Qed.
+
+Lemma store_guard s : exec [StoreObject (guard_copy s)] = [].
+Proof. unfold exec. simpl. rewrite base_guard. reflexivity. Qed.
+
+Lemma all_safe (c : call) (v : nat -> src) (vars : list nat) : exec (prog_of c v vars) = [].
+Proof.
+  destruct c; simpl;
+    repeat first [ rewrite exec_app
+                 | rewrite store_guard
+                 | rewrite exec_map_nil by (intros; reflexivity) ];
+    reflexivity.
+Qed.
+
+(* every catalogued call is isolated: full strength (every call, every number of variables, memory or disk) *)
 Lemma all_isolated (o : op) : isolated o = true.
-Proof. destruct o; reflexivity. Qed.
+Proof. destruct o as [c mem vars]. unfold isolated, impl_effs. rewrite all_safe. reflexivity. Qed.
+
+(* the transcription is not blind: the statements the repaired calls used to contain do have effects *)
+Lemma old_statements_have_effects :
+  exec [StoreObject (SVar 2)] = [EAlias 2]                                  (* eval('C = A') before the guard *)
+  /\ exec [StoreObject (SView (SVar 2))] = [EAlias 2]                        (* eval('C = A[:]') *)
+  /\ exec [CreateValues (SView (SVar 0))] = [EAlias 0]                       (* getvarpnc: values=coordvar[...] *)
+  /\ exec [StoreObject (SView (SView (SView (SView (SVar 3)))))] = [EAlias 3] (* slice_dim: the swapaxes/slice view *)
+  /\ exec [StoreObject (SView (SView (SVar 1)))] = [EAlias 1]                (* reorderDimensions without .copy() (seeded C05_m7) *)
+  /\ exec [Inplace (SView (SView (SVar 1)))] = [EMutate 1]                   (* getTimes / val2idx on the views *)
+  /\ exec [StoreObject (SView (SDisk 2))] = [].                              (* a disk-backed variable: [...] is a new array *)
+Proof. vm_compute. repeat split; reflexivity. Qed.
 
 Lemma isolation_all (o : op) :
   forall A (outs : list (list A)) junk (h h' : heap A) out ws,
@@ -107,7 +140,7 @@ Proof.
 Qed.
 
 (* every query leaves the heap exactly as it was and hands back no buffer *)
-Lemma queries_pure (c : nat) A (junk : list A) (h : heap A) :
-  isolated (Query c) = true
-  /\ run_actions A h (actions_of (impl_effs (Query c)) [] junk) = (h, []).
-Proof. split; reflexivity. Qed.
+Lemma queries_pure (c : call) (mem : bool) (vars : list nat) A (junk : list A) (h : heap A) :
+  is_query c = true ->
+  run_actions A h (actions_of (impl_effs (Call c mem vars)) [] junk) = (h, []).
+Proof. intros _. unfold impl_effs. rewrite all_safe. reflexivity. Qed.
